@@ -30,6 +30,8 @@ TYPE_NAME = {"String": "string", "Integer": "integer", "Number": "number", "Bool
 CLASS_KW = ["default", "const", "enum", "required", "minProperties", "maxProperties", "patternProperties",
             "additionalProperties", "propertyNames", "dependencies", "description"]
 
+LONG_DESCRIPTION = ("A description longer than any line limit or display width: it runs on and on, with  two "
+                    "spaces here, a tab\there, and no line break for well over one hundred and sixty characters in all. ")
 KEYWORD_PY_NAMES = ["description", "required", "default", "enum", "const", "dependencies", "properties"]
 PY_NAMES = ["a", "b", "c", "d", "foo", "bar", "x1", "name_"]
 RENAMES = {"class_": "class", "a_b": "a-b", "for_": "for", "first": "1st", "e_acute": "é", "my_name": "my name",
@@ -99,7 +101,7 @@ class Gen:
         if rng.random() < self.defaults:
             kw["default"] = self.literal()
         if rng.random() < 0.05:
-            kw["description"] = rng.choice(["plain", "with 'quote'", "x"])
+            kw["description"] = rng.choice(["plain", "with 'quote'", "x", LONG_DESCRIPTION, LONG_DESCRIPTION * 3])
 
     def numeric(self, kw):
         rng = self.rng
